@@ -3,7 +3,7 @@ C10 — splitLayers: invariants of the walk loop and the four splitting theorems
 -/
 import Apko.Proofs.Lemmas.LayersStmt
 
-namespace Apko.C10
+namespace Apko.C10.Split
 open Apko Apko.Layers
 
 /-! ## alignStacks in closed form -/
@@ -850,4 +850,4 @@ theorem flattenEqSingle : FlattenEqSingle := by
     obtain ⟨g, hg, hgp⟩ := List.mem_map.1 ((inv.li k L hL).e x hx)
     exact hex ⟨g, hg, hgp.trans hp⟩
 
-end Apko.C10
+end Apko.C10.Split
